@@ -1,14 +1,34 @@
 // racecheck: many goroutines share one lazyproto.Decoder (built with -race by the C15 check).
-// Every goroutine decodes its own inputs, reads values (incl. nested results) and closes; each value
-// is compared with the one a private decoder produced sequentially beforehand. Exit status 0 = all
-// equal and the race detector stayed silent (it exits with status 66 on a report).
+//
+// Every goroutine decodes its own inputs, reads values and closes; what it observes through the SHARED decoder is
+// compared with what a private decoder of its own produced for the same bytes.  Exit status 0 = all equal and the
+// race detector stayed silent (it exits with status 66 on a report).
+//
+// What a goroutine does is what the API allows a client to do, not only the straight "decode, read, close":
+//
+//   - cold start: all goroutines are released by one barrier and the very first thing each of them does (it also
+//     builds its private Decoder only then) is a full sweep: every one of the 26 typed accessors on every tag —
+//     declared and present with each wire type, declared and absent, undeclared — on the root result and on a
+//     nested result, NestedResult on a damaged sub-message, a malformed input.  Error paths (wire-type mismatch
+//     with one and with two supported types, overflow, not-found, not-defined, nesting-not-defined, truncated
+//     data) are therefore taken concurrently from the first operations of the process on, which is when lazily
+//     initialised package-level state would be written;
+//   - later iterations repeat that sweep on two random tags, plus fixed reads of every kind of value;
+//   - in safe mode every value handed out (byte slices, strings, typed slices, of root and nested results) is
+//     KEPT after Close and looked at again after the goroutine — and all the others — have decoded further
+//     messages with the recycled results; afterwards the goroutine overwrites the byte slices it was given
+//     (they are its own copies) and, now and then, its input slice right after Decode returned;
+//   - now and then a result is kept OPEN while the next message is decoded and read (two results of one
+//     Decoder alive in one goroutine), read again, and only then closed.
 package main
 
 import (
 	"flag"
 	"fmt"
+	"math"
 	"os"
 	"runtime"
+	"strconv"
 	"sync"
 
 	"github.com/CrowdStrike/csproto"
@@ -27,7 +47,21 @@ func (r *rng) u64() uint64 {
 }
 func (r *rng) intn(n int) int { return int(r.u64() % uint64(n)) }
 
-// message: 1 varint (repeated), 2 string, 3 nested{1 varint repeated, 2 bytes} (repeated), 4 packed fixed32
+func (r *rng) bytes(n int) []byte {
+	b := make([]byte, n)
+	for i := range b {
+		b[i] = byte(r.u64())
+	}
+	return b
+}
+
+// message:
+//
+//	1 varint (repeated)            2 string                         3 nested (repeated) { 1 varint (repeated), 2 bytes,
+//	4 packed fixed32               5 bytes (repeated)                  3 fixed64 (repeated), 4 string (repeated) }
+//	6 fixed64 (repeated, unpacked) 7 fixed32 (repeated, unpacked)   8 packed varint
+//	9 declared, never present      10 nested { 1 varint }, sometimes damaged
+//	12 present, not declared
 func genMsg(r *rng) []byte {
 	var b []byte
 	for i := r.intn(4); i > 0; i-- {
@@ -45,7 +79,15 @@ func genMsg(r *rng) []byte {
 			in = protowire.AppendVarint(in, r.u64()>>uint(r.intn(64)))
 		}
 		in = protowire.AppendTag(in, 2, protowire.BytesType)
-		in = protowire.AppendBytes(in, []byte{byte(r.u64()), byte(r.u64())})
+		in = protowire.AppendBytes(in, r.bytes(2+r.intn(9)))
+		for j := r.intn(3); j > 0; j-- {
+			in = protowire.AppendTag(in, 3, protowire.Fixed64Type)
+			in = protowire.AppendFixed64(in, r.u64())
+		}
+		for j := r.intn(3); j > 0; j-- {
+			in = protowire.AppendTag(in, 4, protowire.BytesType)
+			in = protowire.AppendString(in, fmt.Sprintf("n%d", r.u64()%1000000))
+		}
 		b = protowire.AppendTag(b, 3, protowire.BytesType)
 		b = protowire.AppendBytes(b, in)
 	}
@@ -55,42 +97,409 @@ func genMsg(r *rng) []byte {
 	}
 	b = protowire.AppendTag(b, 4, protowire.BytesType)
 	b = protowire.AppendBytes(b, p)
+	for i := r.intn(3); i > 0; i-- {
+		b = protowire.AppendTag(b, 5, protowire.BytesType)
+		b = protowire.AppendBytes(b, r.bytes(1+r.intn(24)))
+	}
+	for i := r.intn(3); i > 0; i-- {
+		b = protowire.AppendTag(b, 6, protowire.Fixed64Type)
+		b = protowire.AppendFixed64(b, r.u64())
+	}
+	for i := r.intn(3); i > 0; i-- {
+		b = protowire.AppendTag(b, 7, protowire.Fixed32Type)
+		b = protowire.AppendFixed32(b, uint32(r.u64()))
+	}
+	if r.intn(2) > 0 {
+		var pv []byte
+		for i := r.intn(4); i > 0; i-- {
+			pv = protowire.AppendVarint(pv, r.u64()>>uint(r.intn(64)))
+		}
+		b = protowire.AppendTag(b, 8, protowire.BytesType)
+		b = protowire.AppendBytes(b, pv)
+	}
+	if r.intn(2) > 0 {
+		in := protowire.AppendVarint(protowire.AppendTag(nil, 1, protowire.VarintType), r.u64()>>uint(r.intn(64)))
+		if r.intn(6) == 0 {
+			in = []byte{0x08, 0x80} // a varint that ends in the middle
+		}
+		b = protowire.AppendTag(b, 10, protowire.BytesType)
+		b = protowire.AppendBytes(b, in)
+	}
+	if r.intn(3) == 0 {
+		b = protowire.AppendTag(b, 12, protowire.VarintType)
+		b = protowire.AppendVarint(b, r.u64())
+	}
+	if r.intn(16) == 0 {
+		b = append(b, 0x08) // malformed: a key without a value
+	}
 	return b
 }
 
-func observe(dec *lazyproto.Decoder, msg []byte, yield bool) (string, error) {
-	res, err := dec.Decode(msg)
-	if err != nil {
-		return "", err
+type accessor struct {
+	name string
+	get  func(fd *lazyproto.FieldData) (interface{}, error)
+}
+
+var accessors = []accessor{
+	{"Bool", func(fd *lazyproto.FieldData) (interface{}, error) { return fd.BoolValue() }},
+	{"Bools", func(fd *lazyproto.FieldData) (interface{}, error) { return fd.BoolValues() }},
+	{"String", func(fd *lazyproto.FieldData) (interface{}, error) { return fd.StringValue() }},
+	{"Strings", func(fd *lazyproto.FieldData) (interface{}, error) { return fd.StringValues() }},
+	{"Bytes", func(fd *lazyproto.FieldData) (interface{}, error) { return fd.BytesValue() }},
+	{"Bytess", func(fd *lazyproto.FieldData) (interface{}, error) { return fd.BytesValues() }},
+	{"UInt32", func(fd *lazyproto.FieldData) (interface{}, error) { return fd.UInt32Value() }},
+	{"UInt32s", func(fd *lazyproto.FieldData) (interface{}, error) { return fd.UInt32Values() }},
+	{"Int32", func(fd *lazyproto.FieldData) (interface{}, error) { return fd.Int32Value() }},
+	{"Int32s", func(fd *lazyproto.FieldData) (interface{}, error) { return fd.Int32Values() }},
+	{"SInt32", func(fd *lazyproto.FieldData) (interface{}, error) { return fd.SInt32Value() }},
+	{"SInt32s", func(fd *lazyproto.FieldData) (interface{}, error) { return fd.SInt32Values() }},
+	{"UInt64", func(fd *lazyproto.FieldData) (interface{}, error) { return fd.UInt64Value() }},
+	{"UInt64s", func(fd *lazyproto.FieldData) (interface{}, error) { return fd.UInt64Values() }},
+	{"Int64", func(fd *lazyproto.FieldData) (interface{}, error) { return fd.Int64Value() }},
+	{"Int64s", func(fd *lazyproto.FieldData) (interface{}, error) { return fd.Int64Values() }},
+	{"SInt64", func(fd *lazyproto.FieldData) (interface{}, error) { return fd.SInt64Value() }},
+	{"SInt64s", func(fd *lazyproto.FieldData) (interface{}, error) { return fd.SInt64Values() }},
+	{"Fixed32", func(fd *lazyproto.FieldData) (interface{}, error) { return fd.Fixed32Value() }},
+	{"Fixed32s", func(fd *lazyproto.FieldData) (interface{}, error) { return fd.Fixed32Values() }},
+	{"Fixed64", func(fd *lazyproto.FieldData) (interface{}, error) { return fd.Fixed64Value() }},
+	{"Fixed64s", func(fd *lazyproto.FieldData) (interface{}, error) { return fd.Fixed64Values() }},
+	{"Float32", func(fd *lazyproto.FieldData) (interface{}, error) { return fd.Float32Value() }},
+	{"Float32s", func(fd *lazyproto.FieldData) (interface{}, error) { return fd.Float32Values() }},
+	{"Float64", func(fd *lazyproto.FieldData) (interface{}, error) { return fd.Float64Value() }},
+	{"Float64s", func(fd *lazyproto.FieldData) (interface{}, error) { return fd.Float64Values() }},
+}
+
+// appendValue renders a value handed out by an accessor (strconv / hex only: this runs millions of times under
+// the race detector).
+func appendValue(b []byte, v interface{}) []byte {
+	switch v := v.(type) {
+	case bool:
+		return strconv.AppendBool(b, v)
+	case uint32:
+		return strconv.AppendUint(b, uint64(v), 10)
+	case int32:
+		return strconv.AppendInt(b, int64(v), 10)
+	case uint64:
+		return strconv.AppendUint(b, v, 10)
+	case int64:
+		return strconv.AppendInt(b, v, 10)
+	case float32:
+		return strconv.AppendUint(append(b, 'f'), uint64(math.Float32bits(v)), 16)
+	case float64:
+		return strconv.AppendUint(append(b, 'f'), math.Float64bits(v), 16)
+	case []byte:
+		return appendHex(append(b, 'x'), v)
+	case string:
+		return appendHex(append(b, 's'), []byte(v))
+	case [][]byte:
+		b = append(b, '[')
+		for _, x := range v {
+			b = append(appendHex(append(b, 'x'), x), ' ')
+		}
+		return append(b, ']')
+	case []string:
+		b = append(b, '[')
+		for _, x := range v {
+			b = append(appendHex(append(b, 's'), []byte(x)), ' ')
+		}
+		return append(b, ']')
+	case []bool:
+		b = append(b, '[')
+		for _, x := range v {
+			b = append(strconv.AppendBool(b, x), ' ')
+		}
+		return append(b, ']')
+	case []uint32:
+		b = append(b, '[')
+		for _, x := range v {
+			b = append(strconv.AppendUint(b, uint64(x), 10), ' ')
+		}
+		return append(b, ']')
+	case []int32:
+		b = append(b, '[')
+		for _, x := range v {
+			b = append(strconv.AppendInt(b, int64(x), 10), ' ')
+		}
+		return append(b, ']')
+	case []uint64:
+		b = append(b, '[')
+		for _, x := range v {
+			b = append(strconv.AppendUint(b, x, 10), ' ')
+		}
+		return append(b, ']')
+	case []int64:
+		b = append(b, '[')
+		for _, x := range v {
+			b = append(strconv.AppendInt(b, x, 10), ' ')
+		}
+		return append(b, ']')
+	case []float32:
+		b = append(b, '[')
+		for _, x := range v {
+			b = append(strconv.AppendUint(append(b, 'f'), uint64(math.Float32bits(x)), 16), ' ')
+		}
+		return append(b, ']')
+	case []float64:
+		b = append(b, '[')
+		for _, x := range v {
+			b = append(strconv.AppendUint(append(b, 'f'), math.Float64bits(x), 16), ' ')
+		}
+		return append(b, ']')
 	}
-	out := ""
+	return append(b, fmt.Sprint(v)...)
+}
+
+const hexDigits = "0123456789abcdef"
+
+func appendHex(b, v []byte) []byte {
+	for _, c := range v {
+		b = append(b, hexDigits[c>>4], hexDigits[c&15])
+	}
+	return b
+}
+
+func render(v interface{}) string { return string(appendValue(nil, v)) }
+
+// errText renders an error through its message: the message of a wire-type mismatch names the wire type found
+// in THIS goroutine's input, so it is part of what the goroutine observes.
+func errText(err error) string {
+	if err == nil {
+		return "<nil>"
+	}
+	return "!" + err.Error()
+}
+
+// label names a read: where.name(tag)
+type label struct {
+	where, name string
+	tag         int
+}
+
+func (l label) String() string {
+	s := l.name
+	if l.where != "" {
+		s = l.where + "." + s
+	}
+	if l.tag != 0 {
+		s += "(" + strconv.Itoa(l.tag) + ")"
+	}
+	return s
+}
+
+func (l label) append(b []byte) []byte {
+	if l.where != "" {
+		b = append(append(b, l.where...), '.')
+	}
+	b = append(b, l.name...)
+	if l.tag != 0 {
+		b = append(strconv.AppendInt(append(b, '('), int64(l.tag), 10), ')')
+	}
+	return b
+}
+
+// heldValue is a value a goroutine was handed (safe mode) and keeps using after Close.
+type heldValue struct {
+	what label
+	live interface{}
+	snap string
+}
+
+// observer collects what one goroutine sees of one result.
+type observer struct {
+	out  []byte
+	keep bool // safe mode: remember the values handed out
+	held []heldValue
+}
+
+func (o *observer) value(what label, v interface{}, err error) {
+	o.out = append(what.append(o.out), '=')
+	if err != nil {
+		o.out = append(append(append(o.out, '!'), err.Error()...), ';')
+		return
+	}
+	from := len(o.out)
+	o.out = appendValue(o.out, v)
+	if o.keep {
+		switch v.(type) {
+		case bool, uint32, int32, uint64, int64, float32, float64:
+			// plain values cannot change
+		default:
+			o.held = append(o.held, heldValue{what, v, string(o.out[from:])})
+		}
+	}
+	o.out = append(o.out, ';')
+}
+
+func (o *observer) note(what label, present bool, err error) {
+	o.out = append(what.append(o.out), '=')
+	o.out = strconv.AppendBool(o.out, present)
+	o.out = append(append(append(o.out, ','), errText(err)...), ';')
+}
+
+// sweep calls every typed accessor on one tag of res.
+func (o *observer) sweep(where string, res *lazyproto.DecodeResult, tag int) {
+	fd, err := res.FieldData(tag)
+	if err != nil {
+		o.note(label{where, "FieldData", tag}, false, err)
+		return
+	}
+	for _, a := range accessors {
+		v, err := a.get(fd)
+		o.value(label{where, a.name, tag}, v, err)
+	}
+}
+
+const maxRootTag, maxNestedTag = 12, 5
+
+var nestedWhere = []string{"nested3[0]", "nested3[1]", "nested3[2]", "nested3[3]", "nested3[4]"}
+
+// read performs the reads of one iteration on res. choice makes the random choices (the same ones for the
+// private and for the shared decoder); cold = the full sweep.
+func (o *observer) read(res *lazyproto.DecodeResult, choice *rng, yield, cold bool) {
 	v1, e1 := res.UInt64Values(1)
-	out += fmt.Sprint(v1, e1 != nil)
+	o.value(label{"", "UInt64Values", 1}, v1, e1)
 	if yield {
 		runtime.Gosched()
 	}
 	s2, e2 := res.StringValue(2)
-	out += fmt.Sprint(s2, e2 != nil)
+	o.value(label{"", "StringValue", 2}, s2, e2)
 	f4, e4 := res.Fixed32Values(4)
-	out += fmt.Sprint(f4, e4 != nil)
+	o.value(label{"", "Fixed32Values", 4}, f4, e4)
+	b5, e5 := res.BytesValues(5)
+	o.value(label{"", "BytesValues", 5}, b5, e5)
+	b5l, e5l := res.BytesValue(5)
+	o.value(label{"", "BytesValue", 5}, b5l, e5l)
+	f6, e6 := res.Float64Values(6)
+	o.value(label{"", "Float64Values", 6}, f6, e6)
+	// wrong-type requests on purpose: numeric slice accessors on fields of another numeric wire type, ...
+	w1, ew1 := res.Fixed32Values(1)
+	o.value(label{"", "Fixed32Values", 1}, w1, ew1)
+	w6, ew6 := res.SInt64Values(6)
+	o.value(label{"", "SInt64Values", 6}, w6, ew6)
+	w7, ew7 := res.Fixed64Values(7)
+	o.value(label{"", "Fixed64Values", 7}, w7, ew7)
+	w2, ew2 := res.UInt32Value(2)
+	o.value(label{"", "UInt32Value", 2}, w2, ew2)
+	// ... a declared tag that is absent, an undeclared tag
+	m9, em9 := res.StringValues(9)
+	o.value(label{"", "StringValues", 9}, m9, em9)
+	u11, eu11 := res.Int64Value(11)
+	o.value(label{"", "Int64Value", 11}, u11, eu11)
 	ns, e3 := res.NestedResults(3)
-	out += fmt.Sprint(len(ns), e3 != nil)
-	for _, n := range ns {
+	o.note(label{"", "NestedResults", 3}, len(ns) > 0, e3)
+	for i, n := range ns {
 		if yield {
 			runtime.Gosched()
 		}
+		where := nestedWhere[i%len(nestedWhere)]
 		a, ea := n.UInt64Values(1)
+		o.value(label{where, "UInt64Values", 1}, a, ea)
 		b, eb := n.BytesValue(2)
-		out += fmt.Sprint(a, ea != nil, b, eb != nil)
+		o.value(label{where, "BytesValue", 2}, b, eb)
+		c, ec := n.Fixed64Values(3)
+		o.value(label{where, "Fixed64Values", 3}, c, ec)
+		d, ed := n.StringValues(4)
+		o.value(label{where, "StringValues", 4}, d, ed)
+		w, ew := n.Float32Values(3)
+		o.value(label{where, "Float32Values", 3}, w, ew)
 	}
 	last, el := res.NestedResult(3)
-	if el == nil {
+	o.note(label{"", "NestedResult", 3}, last != nil, el)
+	if el == nil && last != nil {
 		a, ea := last.UInt64Value(1)
-		out += fmt.Sprint(a, ea != nil)
+		o.value(label{"last3", "UInt64Value", 1}, a, ea)
+		if cold {
+			for tag := 1; tag <= maxNestedTag; tag++ {
+				o.sweep("last3", last, tag)
+			}
+		} else if choice.intn(2) == 0 {
+			o.sweep("last3", last, 1+choice.intn(maxNestedTag))
+		}
+		_, en := last.NestedResult(1)
+		o.note(label{"last3", "NestedResult", 1}, false, en)
 	}
-	res.Range(func(tag int, fd *lazyproto.FieldData) bool { out += fmt.Sprint(tag, fd != nil); return true })
-	res.Close()
-	return out, nil
+	// a damaged sub-message, a tag without a nested definition, an undeclared tag
+	n10, e10 := res.NestedResult(10)
+	o.note(label{"", "NestedResult", 10}, n10 != nil, e10)
+	_, e10s := res.NestedResults(10)
+	o.note(label{"", "NestedResults", 10}, false, e10s)
+	_, e5n := res.NestedResult(5)
+	o.note(label{"", "NestedResult", 5}, false, e5n)
+	_, e11n := res.NestedResult(11)
+	o.note(label{"", "NestedResult", 11}, false, e11n)
+	// paths
+	if fd, err := res.FieldData(3, 2); err != nil {
+		o.note(label{"", "FieldData(3,2)", 0}, false, err)
+	} else {
+		v, err := fd.BytesValue()
+		o.value(label{"FieldData(3,2)", "BytesValue", 0}, v, err)
+		vs, err := fd.StringValues()
+		o.value(label{"FieldData(3,2)", "StringValues", 0}, vs, err)
+	}
+	if fd, err := res.FieldData(10, 1); err != nil {
+		o.note(label{"", "FieldData(10,1)", 0}, false, err)
+	} else {
+		v, err := fd.UInt64Values()
+		o.value(label{"FieldData(10,1)", "UInt64Values", 0}, v, err)
+		w, err := fd.Fixed64Values()
+		o.value(label{"FieldData(10,1)", "Fixed64Values", 0}, w, err)
+	}
+	_, e31 := res.FieldData(3, 1, 1)
+	o.note(label{"", "FieldData(3,1,1)", 0}, false, e31)
+	if cold {
+		for tag := 1; tag <= maxRootTag; tag++ {
+			o.sweep("root", res, tag)
+		}
+	} else {
+		o.sweep("root", res, 1+choice.intn(maxRootTag))
+	}
+	res.Range(func(tag int, fd *lazyproto.FieldData) bool {
+		o.out = append(strconv.AppendBool(append(strconv.AppendInt(append(o.out, "range "...), int64(tag), 10), ' '), fd != nil), ';')
+		return true
+	})
+}
+
+// reread: a few reads on a result that was kept open while another message was decoded
+func reread(res *lazyproto.DecodeResult) string {
+	var o observer
+	v1, e1 := res.UInt64Values(1)
+	o.value(label{"", "UInt64Values", 1}, v1, e1)
+	b5, e5 := res.BytesValues(5)
+	o.value(label{"", "BytesValues", 5}, b5, e5)
+	if fd, err := res.FieldData(3, 2); err != nil {
+		o.note(label{"", "FieldData(3,2)", 0}, false, err)
+	} else {
+		v, err := fd.BytesValue()
+		o.value(label{"FieldData(3,2)", "BytesValue", 0}, v, err)
+	}
+	if fd, err := res.FieldData(3, 4); err != nil {
+		o.note(label{"", "FieldData(3,4)", 0}, false, err)
+	} else {
+		v, err := fd.StringValues()
+		o.value(label{"FieldData(3,4)", "StringValues", 0}, v, err)
+	}
+	return string(o.out)
+}
+
+// diffAt shortens an observation to the entries around the first difference with other
+func diffAt(a, other []byte) string {
+	k := 0
+	for k < len(a) && k < len(other) && a[k] == other[k] {
+		k++
+	}
+	from := k
+	for n := 0; from > 0 && n < 3; from-- {
+		if a[from-1] == ';' {
+			n++
+		}
+	}
+	to := k
+	for n := 0; to < len(a) && n < 3; to++ {
+		if a[to] == ';' {
+			n++
+		}
+	}
+	return fmt.Sprintf("…%s… (first difference at byte %d of %d)", a[from:to], k, len(a))
 }
 
 func main() {
@@ -100,12 +509,14 @@ func main() {
 	seed := flag.Uint64("seed", 1, "seed")
 	fast := flag.Bool("fast", false, "fast mode")
 	maxbuf := flag.Int("maxbuf", -1, "max buffer size")
+	coldOnly := flag.Bool("cold", false, "every iteration is a cold-start sweep (use with a small -n)")
 	flag.Parse()
 	if *procs > 0 {
 		runtime.GOMAXPROCS(*procs)
 	}
-	def := lazyproto.NewDef(1, 2, 4)
-	def.NestedTag(3, 1, 2)
+	def := lazyproto.NewDef(1, 2, 4, 5, 6, 7, 8, 9)
+	def.NestedTag(3, 1, 2, 3, 4)
+	def.NestedTag(10, 1)
 	mode := csproto.DecoderModeSafe
 	if *fast {
 		mode = csproto.DecoderModeFast
@@ -122,27 +533,136 @@ func main() {
 	var wg sync.WaitGroup
 	var mu sync.Mutex
 	bad := 0
+	report := func(format string, args ...interface{}) {
+		mu.Lock()
+		if bad < 5 {
+			fmt.Printf(format, args...)
+		}
+		bad++
+		mu.Unlock()
+	}
+	start := make(chan struct{})
 	for gi := 0; gi < *g; gi++ {
 		wg.Add(1)
 		go func(gi int) {
 			defer wg.Done()
+			<-start // every goroutine begins at the same moment, with a cold process
 			r := &rng{s: *seed*1000003 + uint64(gi)}
-			private, _ := lazyproto.NewDecoder(def, opts...)
+			private, err := lazyproto.NewDecoder(def, opts...)
+			if err != nil {
+				report("MISMATCH goroutine=%d NewDecoder: %v\n", gi, err)
+				return
+			}
+			type generation struct {
+				it   int
+				held []heldValue
+			}
+			var kept []generation // values handed out in earlier iterations (safe mode)
+			verify := func(gen generation, when string) {
+				for _, h := range gen.held {
+					if now := render(h.live); now != h.snap {
+						report("MISMATCH goroutine=%d: the value %s handed out in iteration %d (safe mode) changed %s\n handed out %s\n now        %s\n", gi, h.what, gen.it, when, h.snap, now)
+						return
+					}
+				}
+			}
+			scribble := func(gen generation) { // the values are the goroutine's own copies: it may do with them what it likes
+				for _, h := range gen.held {
+					switch v := h.live.(type) {
+					case []byte:
+						for i := range v {
+							v[i] = 0xEE
+						}
+					case [][]byte:
+						for _, b := range v {
+							for i := range b {
+								b[i] = 0xEE
+							}
+						}
+					case []uint64:
+						for i := range v {
+							v[i] = 0xEEEEEEEE
+						}
+					case []string:
+						for i := range v {
+							v[i] = "scribbled"
+						}
+					}
+				}
+			}
+			var open *lazyproto.DecodeResult // a result of the shared decoder that is kept open across the next iteration
+			var openWant string
+			var openIt int
 			for i := 0; i < *n; i++ {
 				msg := genMsg(r)
-				want, err1 := observe(private, msg, false)
-				got, err2 := observe(shared, append([]byte{}, msg...), i%3 == 0)
-				if err1 != nil || err2 != nil || want != got {
-					mu.Lock()
-					if bad < 5 {
-						fmt.Printf("MISMATCH goroutine=%d iteration=%d msg=%x\n want %s\n got  %s (%v %v)\n", gi, i, msg, want, got, err1, err2)
-					}
-					bad++
-					mu.Unlock()
+				cold := i == 0 || *coldOnly
+				choiceSeed := r.u64()
+				// what a private decoder finds
+				var want observer
+				pres, perr := private.Decode(msg)
+				want.note(label{"", "Decode", 0}, pres != nil, perr)
+				wantReread := ""
+				if perr == nil && pres != nil {
+					want.read(pres, &rng{s: choiceSeed}, false, cold)
+					wantReread = reread(pres)
+					pres.Close()
 				}
+				// the same through the shared decoder
+				got := observer{keep: !*fast}
+				input := append([]byte{}, msg...)
+				sres, serr := shared.Decode(input)
+				if !*fast && i%4 == 1 {
+					for k := range input { // safe mode: the result has its own copy of the input
+						input[k] = 0xDD
+					}
+				}
+				got.note(label{"", "Decode", 0}, sres != nil, serr)
+				if serr == nil && sres != nil {
+					got.read(sres, &rng{s: choiceSeed}, i%3 == 0, cold)
+				}
+				if string(want.out) != string(got.out) {
+					report("MISMATCH goroutine=%d iteration=%d msg=%x\n want %s\n got  %s\n", gi, i, msg, diffAt(want.out, got.out), diffAt(got.out, want.out))
+				}
+				// a result kept open since the previous iteration: read it again now that another message was
+				// decoded and read with the same Decoder, then close it
+				if open != nil {
+					if now := reread(open); now != openWant {
+						report("MISMATCH goroutine=%d: the result of iteration %d, kept open while iteration %d decoded and read another message, changed\n want %s\n got  %s\n", gi, openIt, i, openWant, now)
+					}
+					open.Close()
+					open = nil
+				}
+				if serr == nil && sres != nil {
+					if i%5 == 2 && i+1 < *n {
+						open, openWant, openIt = sres, wantReread, i
+					} else {
+						sres.Close()
+					}
+				}
+				if i%3 == 1 {
+					runtime.Gosched() // results are back in the pool: let the others decode with them
+				}
+				// values handed out earlier: intact after this iteration's decodes?
+				for _, gen := range kept {
+					verify(gen, fmt.Sprintf("by iteration %d (after Close and later Decodes)", i))
+				}
+				if len(got.held) > 0 {
+					kept = append(kept, generation{i, got.held})
+				}
+				if len(kept) > 3 {
+					scribble(kept[0])
+					kept = kept[1:]
+				}
+			}
+			if open != nil {
+				open.Close()
+			}
+			for _, gen := range kept {
+				verify(gen, "by the end of the run")
 			}
 		}(gi)
 	}
+	close(start)
 	wg.Wait()
 	if bad > 0 {
 		fmt.Printf("%d mismatches\n", bad)
